@@ -268,14 +268,17 @@ def setup_dump_config_for_cls_if_needed(cls):
 
         elif f.metadata:
             if value := f.metadata.get('__remapping__'):
-                if isinstance(value, JSON) and value.all:
-                    keys = value.keys
-                    if value.path:
-                        if set_paths:
-                            field_to_path[f.name] = keys
-                        field_to_alias[f.name] = ''
-                    else:
-                        field_to_alias[f.name] = keys[0]
+                if isinstance(value, JSON):
+                    if not value.dump:
+                        field_to_alias[f.name] = ExplicitNull
+                    elif value.all:
+                        keys = value.keys
+                        if value.path:
+                            if set_paths:
+                                field_to_path[f.name] = keys
+                            field_to_alias[f.name] = ''
+                        else:
+                            field_to_alias[f.name] = keys[0]
             elif value := f.metadata.get('__skip_if__'):
                 if isinstance(value, Condition):
                     dataclass_field_to_skip_if[f.name] = value
